@@ -23,6 +23,7 @@ FORMS = ["self", "pubo", "puso", "qubo", "quso"]
 LABEL_FLAG = {"last": False}
 HEAVY = {"last": False}
 SHAPED = {"n": 0}
+STEPS = {}      # steps between the constraints of the last built history (counted by case())
 
 
 def FLOORS(tier):
@@ -79,12 +80,31 @@ def build(rng):
     ftab = ref.table(f, order)
     rng_f = float(ftab.max() - ftab.min())
     H = T()
+    STEPS.clear()
+    rels, desc = [], []
+    if rng.random() < 0.15:
+        # the object had an earlier life: another problem over the same labels, with a constraint, then clear()
+        for k, v in gen.rand_terms(rng, labs, 2, coefs=[-2, 1, 3], lo=1, hi=3).items():
+            H[k] += v
+        with warnings.catch_warnings():
+            warnings.simplefilter("ignore")
+            if rng.random() < 0.5:
+                H.add_constraint_eq_zero({(labs[0],): 1, (labs[-1],): -1} if kind == "bool" else {(labs[0], labs[-1]): 1, (): 1}, lam=5)
+            else:
+                H.add_constraint_le_zero({(x,): 1 for x in labs}, lam=5, log_trick=rng.random() < 0.5)
+        H.clear()
+        desc.append(["earlier-problem-then-clear"])
+        STEPS["earlier-life-then-clear"] = 1
     for k, v in fterms.items():
         H[k] += v
-    rels, desc = [], [["objective", fterms]]
+    desc.append(["objective", fterms])
     feasible = np.ones(1 << n, dtype=bool)
     for ci in range(rng.randint(1, 3)):
         lam = rng_f + rng.choice([0.5, 1, 7])
+        if ci and rng.random() < 0.25:
+            H.refresh()
+            desc.append(["refresh"])
+            STEPS["refresh-between-constraints"] = STEPS.get("refresh-between-constraints", 0) + 1
         if kind == "bool" and rng.random() < 0.35:
             g = rng.choice(["AND", "OR", "XOR", "NAND", "NOR", "XNOR", "eq_AND", "eq_OR", "eq_XOR", "NOT", "eq_BUFFER"])
             k = 1 if g == "NOT" else rng.randint(2, min(3, n))
@@ -142,9 +162,18 @@ def build(rng):
         kw = {"lam": lam}
         if R != "eq":
             kw["log_trick"] = rng.random() < 0.5
+        Parg = P
+        if rng.random() < 0.3:
+            # the polynomial is one of the library's own expression objects, which the caller goes on editing afterwards
+            Parg = rng.choice([T, L.PUBO if kind == "bool" else L.PUSO])(P)
         with warnings.catch_warnings():
             warnings.simplefilter("ignore")
-            getattr(H, "add_constraint_%s_zero" % R)(P, **kw)
+            getattr(H, "add_constraint_%s_zero" % R)(Parg, **kw)
+        if Parg is not P:
+            Parg -= 3
+            Parg[(labs[0],)] += 2
+            desc.append(["(the caller then edits its polynomial object in place)"])
+            STEPS["polynomial-object-edited-by-caller-afterwards"] = STEPS.get("polynomial-object-edited-by-caller-afterwards", 0) + 1
         desc.append(["add_constraint_%s_zero" % R, P, kw])
         rels.append(lambda x, pp=pp, R=R: bool(oracles.REL[R](pp.value(x))))
         feasible &= sat
@@ -188,6 +217,9 @@ def case(ctx, rng, idx):
     if SHAPED["n"]:
         ctx.count("constraints-from-branch-shapes", SHAPED["n"])
         SHAPED["n"] = 0
+    if desc[0][0] != "readme":
+        for k_, n_ in STEPS.items():
+            ctx.cat("history:" + k_)
     if any(d[0].startswith("add_constraint_") and not d[0].endswith("_zero") for d in desc):
         ctx.cat("logical-constraint")
     spin = kind == "spin"
